@@ -4,6 +4,7 @@ CONSTANTS
   Variants <- MCVariants
   Tilts <- MCTilts
   PinTots <- MCPinTots
+  NGrids = 2
   MaxCross = 2
 INIT Init
 NEXT Next
